@@ -12,7 +12,6 @@ import (
 
 	"github.com/thushan/olla/internal/adapter/discovery"
 	"github.com/thushan/olla/internal/core/domain"
-	"github.com/thushan/olla/internal/util/pattern"
 	"github.com/thushan/olla/internal/verif/h/lib/report"
 	"github.com/thushan/olla/internal/verif/shim/vsched"
 )
@@ -64,12 +63,12 @@ func passes(f *domain.FilterConfig, name string) bool {
 	}
 	inc := len(f.Include) == 0
 	for _, p := range f.Include {
-		if pattern.MatchesGlob(name, p) {
+		if refGlob(name, p) {
 			inc = true
 		}
 	}
 	for _, p := range f.Exclude {
-		if pattern.MatchesGlob(name, p) {
+		if refGlob(name, p) {
 			return false
 		}
 	}
@@ -84,8 +83,9 @@ func filterStr(f *domain.FilterConfig) string {
 }
 
 func e3() {
-	models := []mvar{{"m1", "m1", "sha256:aaaa"}, {"m2", "m2", "sha256:cccc"}, {"n1", "n1", ""}}
-	filters := []*domain.FilterConfig{nil, {Include: []string{"m1"}}, {Exclude: []string{"m1"}}, {Include: []string{"m*"}, Exclude: []string{"m2"}}, {Include: []string{"*1"}}, {Include: []string{"*"}, Exclude: []string{"*"}}}
+	models := []mvar{{"m1", "m1", "sha256:aaaa"}, {"m2", "m2", "sha256:cccc"}, {"n1", "n1", ""}, {"N-Q4", "N-Q4", ""}}
+	filters := []*domain.FilterConfig{nil, {Include: []string{"m1"}}, {Exclude: []string{"m1"}}, {Include: []string{"m*"}, Exclude: []string{"m2"}}, {Include: []string{"*1"}}, {Include: []string{"*"}, Exclude: []string{"*"}},
+		{Exclude: []string{"*-Q4"}}, {Include: []string{"M*", "*-q4"}}}
 	var ops []dop
 	for e := 0; e < 2; e++ {
 		for _, l := range listings(models) {
